@@ -284,6 +284,14 @@ class Check:
                 self.proof_broken("tools/translate_proto.py: the protocol sources no longer have the table shape the "
                                   "translator accepts (%s): gen/ProtoTables.v cannot be regenerated" % e)
                 return False
+        if pid == "C15":
+            import translate_code
+            try:
+                translate_code.regenerate(REPO)
+            except (translate_code.ShapeError, OSError) as e:
+                self.proof_broken("tools/translate_code.py: enable_streaming / the Sirm accessors no longer have the shape "
+                                  "the translator accepts (%s): gen/EnableStreaming.v cannot be regenerated" % e)
+                return False
         if pid == "C17":
             import translate_names
             try:
